@@ -36,6 +36,7 @@ theorem sliceOk_grow {w w' : World} (h : Grow w w') {s : Slice} (hs : sliceOk w 
 theorem Handle.ok_grow {w w' : World} (h : Grow w w') {x : Handle} (hx : x.ok w) : x.ok w' := by
   cases x with
   | arr s f => exact sliceOk_grow h hx
+  | names ms b => trivial
   | str p => cases p with
     | none => trivial
     | some q => exact Nat.lt_of_lt_of_le hx h.strs
@@ -123,6 +124,7 @@ theorem execS1_res (iface : Bool) {w : World} (hw : Wf w) {p : Nat} (hp : p < w.
   | filter f => exact strFilter_res hw p _
   | reject f => exact strFilter_res hw p _
   | notnil => exact strFilter_res hw p _
+  | notnilp => exact strFilter_res hw p _
   | distinct => exact strDistinct_res hw p
   | clone => exact strClone_res hw p
   | reverse => exact strReverse_res hw p
@@ -212,6 +214,22 @@ theorem new_ok {w : World} {d : String} {h : Handle} (hh : h.ok w) :
 theorem none_ok {w : World} : ∀ e ∈ (none : Option (String × Handle)), e.2.ok w := by
   intro e he; cases he
 
+theorem execExtend_ok (iface : Bool) {st : State} (hi : Inv st) (op : Op) (dst src : String)
+    (args : List (Option String)) : ExecOk iface st op (execExtend st dst src args) := by
+  unfold execExtend; split
+  · rename_i p qs hp hq
+    have h := strExtend_res hi.wf (findStr_lt hi hp) qs
+    exact execOk_good h.1 _ (new_ok (h := .str (some _)) h.2) _
+  · trivial
+
+theorem execConcat_ok (iface : Bool) {st : State} (hi : Inv st) (op : Op) (dst src : String)
+    (args : List (Option String)) : ExecOk iface st op (execConcat st dst src args) := by
+  unfold execConcat; split
+  · rename_i p ss hp hq
+    have h := strConcat_res hi.wf (findStr_lt hi hp) ss
+    exact execOk_good h.1 _ (new_ok (h := .str (some _)) h.2) _
+  · trivial
+
 /-- THE step invariant, for every operation of the alphabet and both families. -/
 theorem exec_ok (iface : Bool) {st : State} (hi : Inv st) (op : Op) : ExecOk iface st op (exec iface st op) := by
   cases op with
@@ -284,17 +302,40 @@ theorem exec_ok (iface : Bool) {st : State} (hi : Inv st) (op : Op) : ExecOk ifa
       have h := strMinus_res hi.wf (findStr_lt hi hp) q
       exact execOk_good h.1 _ (new_ok (h := .str (some _)) h.2) _
     · trivial
-  | extend dst src args =>
+  | extend dst src args => exact execExtend_ok iface hi _ dst src args
+  | concat dst src args => exact execConcat_ok iface hi _ dst src args
+  | mklist dst ms b =>
     simp only [exec]; split
-    · rename_i p qs hp hq
-      have h := strExtend_res hi.wf (findStr_lt hi hp) qs
+    · split
+      · exact execOk_same hi _ (new_ok (h := .names ms b) trivial) _
+      · trivial
+    · split
+      · exact execOk_same hi _ (new_ok (h := .names ms b) trivial) _
+      · trivial
+  | extendv dst src l =>
+    simp only [exec]; split
+    · exact execExtend_ok iface hi _ dst src _
+    · trivial
+  | concatv dst src l =>
+    simp only [exec]; split
+    · exact execConcat_ok iface hi _ dst src _
+    · trivial
+  | s1v dst src a app =>
+    simp only [exec]; split
+    · rename_i p s f hp hs
+      have h := execS1_res iface hi.wf (findStr_lt hi hp)
+        (if app then S1.append (st.w.sliceContent s) else S1.rmitem (st.w.sliceContent s)) (by
+          intro i hik; cases app <;> simp at hik)
       exact execOk_good h.1 _ (new_ok (h := .str (some _)) h.2) _
     · trivial
-  | concat dst src args =>
+  | m1v dst src a k =>
     simp only [exec]; split
-    · rename_i p ss hp hq
-      have h := strConcat_res hi.wf (findStr_lt hi hp) ss
-      exact execOk_good h.1 _ (new_ok (h := .str (some _)) h.2) _
+    · rename_i p streams s f hp hs
+      split
+      · rename_i w q hq
+        have h := execM1_res iface streams hi.wf (findSetLike_lt hi hp) _ hq
+        exact execOk_good h.1 _ (new_ok (m1Kind_ok streams _ h.2)) _
+      · trivial
     · trivial
   | slen s => simp only [exec]; split <;> first | exact execOk_same hi _ none_ok _ | trivial
   | sget s i =>
